@@ -357,6 +357,29 @@ def run_r3(ctx, rule):
         else:
             rule.bad("%s/newline-not-counted" % nid, "%s %s" % (short(nid), bad), f.loc())
     rule.note("token_functions", n)
+    # a line skipped wholesale (text::next_newline returns the offset just behind its line feed): consuming up to
+    # that offset is consuming the line feed, so the same offset must have been given to line_at_offset first
+    NN = "flussab::text::next_newline"
+    m = 0
+    for f in facts.fns.values():
+        if f.crate not in FORMAT_CRATES:
+            continue
+        sy = sym(f)
+        c = cfg(f)
+        for bb, t in f.calls():
+            if norm(util.cname(t)) != NN:
+                continue
+            is_nn = lambda x: x[0] == "call" and x[1] == bb and norm(x[2]) == NN
+            counted = [b2 for b2, t2 in f.calls() if norm(util.cname(t2)) == LR + "line_at_offset" and is_nn(sy.operand(t2["args"][1]))]
+            for b3, t3 in f.calls():
+                if not norm(util.cname(t3)).startswith(DR + "advance") or len(t3["args"]) < 2:
+                    continue
+                if not mentions(sy.operand(t3["args"][1]), is_nn):
+                    continue
+                m += 1
+                rule.check(any(c.dominates(b2, b3) for b2 in counted), "%s/skipped-line-counted/%d" % (norm(f.id), m), "%s consumes a whole line found by next_newline only after line_at_offset() was given the same offset" % short(f.id), f.loc(b3))
+    if m < 3:
+        rule.bad("skipped-line/sites", "only %d whole-line skips found (3 counted: comment, interactive_strict_comment, interactive_skip_line)" % m, kind="anchor-missing")
 
 
 def run_r4(ctx, rule):
